@@ -109,6 +109,10 @@ def judge(ctx, cs, text, context, consts, cellinfo=None):
         want, flags = refexpr.evaluate(text, context, consts, sizeof)
     except (refexpr.RefSyntaxError, refexpr.RefNameError):
         return
+    if "hugeshift" in flags:
+        # a shift count beyond 4096: the exact result needs gigabytes (1 << (255 << 31)); not evaluated at all
+        ctx.event("skipped_huge_shift")
+        return
     cs.consts.clear()
     cs.consts.update(consts)
     e, r = lib_eval(cs, text, context)
@@ -136,6 +140,11 @@ def judge(ctx, cs, text, context, consts, cellinfo=None):
                       {"text": text, "context": context, "consts": consts, "first": repr(r[1]), "second": repr(again[1])})
         return
     other = {k: v + 1 for k, v in context.items()}
+    try:
+        if "hugeshift" in refexpr.evaluate(text, other, consts, sizeof)[1]:
+            return
+    except (refexpr.RefSyntaxError, refexpr.RefNameError):
+        pass
     try:
         e.evaluate({})  # usually fails: identifiers unbound
     except Exception:  # noqa: BLE001
